@@ -71,7 +71,7 @@ LoopTop ==
   /\ post' = Count
   /\ IF CtxDone THEN cur' = Raise /\ UNCHANGED <<k, blocked>>
      ELSE CASE cur.t \in {"loop", "rec", "macro", "evloop", "swapspin"} -> UNCHANGED <<cur, k, blocked>>          \* runs on (abstracted: same state)
-            [] cur.t \in {"sleep", "deref", "evsleep", "derefc"} -> blocked' = TRUE /\ UNCHANGED <<cur, k>>
+            [] cur.t \in {"sleep", "deref", "evsleep", "derefc", "derefold"} -> blocked' = TRUE /\ UNCHANGED <<cur, k>>
             [] cur.t = "value" -> cur' = Ret /\ UNCHANGED <<k, blocked>>
             [] cur.t = "try" -> /\ k' = Append(k, [t |-> "body", h |-> cur.h, f |-> cur.f, done |-> FALSE, pend |-> None])
                                 /\ cur' = cur.body /\ UNCHANGED blocked
